@@ -39,7 +39,8 @@ def shape_class(base, index, scale, disp):
     else:
         dc = "d32"
     asz = "32" if (base in R32 or index in R32) else "64"
-    return {"base": rc(base), "index": rc(index), "scale": str(scale), "dclass": dc, "asz": asz}
+    ds = "none" if disp is None else ("neg" if disp < 0 else "pos")
+    return {"base": rc(base), "index": rc(index), "scale": str(scale), "dclass": dc, "asz": asz, "dsign": ds}
 
 
 def key_shapes():
